@@ -247,5 +247,9 @@ static inline uint8_t *vf_rb_erase(uint8_t *zp, uint8_t *hp) {
   return (uint8_t *)y;
 }
 
+/* function-local statics: single-threaded guard protocol; destructors registered for exit are not run */
+static inline uint32_t vf_guard_acquire(uint8_t *g) { return *g == 0; }
+static inline void vf_guard_release(uint8_t *g) { *g = 1; }
+static inline uint32_t vf_atexit(uint8_t *f, uint8_t *a, uint8_t *d) { (void)f; (void)a; (void)d; return 0; }
 static inline void vf_nop2(uint8_t *a, uint8_t *b) { (void)a; (void)b; }
 static inline void vf_nop1(uint8_t *a) { (void)a; }
